@@ -42,8 +42,8 @@ func (dn SuDnum) String() string {
 }
 
 func (dn SuDnum) Hash() uint64 {
-	if n, ok := dn.ToInt64(); ok && MinSuInt <= n && n <= MaxSuInt {
-		// must give the same hash as SuInt
+	if n, ok := dn.ToInt64(); ok {
+		// must give the same hash as SuInt and SuInt64
 		return uint64(n) * phi64
 	}
 	return dn.Dnum.Hash()
@@ -57,9 +57,28 @@ func (dn SuDnum) Equal(other any) bool {
 	if d2, ok := other.(SuDnum); ok {
 		return dnum.Equal(dn.Dnum, d2.Dnum)
 	} else if i, ok := SuIntToInt(other); ok {
-		return dnum.Equal(dn.Dnum, dnum.FromInt(int64(i)))
+		return compareIntDnum(int64(i), dn.Dnum) == 0
 	}
 	return false
+}
+
+// compareIntDnum compares an integer to a Dnum exactly.
+// Converting the integer to a Dnum first could round it
+// (Dnum only has 16 digits).
+func compareIntDnum(i int64, dn dnum.Dnum) int {
+	d := dnum.FromInt(i)
+	if c := dnum.Compare(d, dn); c != 0 || d.Exp() <= 16 {
+		return c // rounding is monotonic so non-zero is correct
+	}
+	// i has more than 16 digits and rounds to dn
+	mag := dn.Coef() // exp is 17 to 19 so this cannot overflow
+	for e := dn.Exp(); e > 16; e-- {
+		mag *= 10
+	}
+	if i < 0 {
+		return cmp.Compare(mag, -uint64(i))
+	}
+	return cmp.Compare(uint64(i), mag)
 }
 
 func (SuDnum) Type() types.Type {
@@ -71,6 +90,9 @@ func (dn SuDnum) Compare(other Value) int {
 		return cmp * 2
 	}
 	// now know other is a number and ToDnum won't panic
+	if i, ok := SuIntToInt(other); ok {
+		return -compareIntDnum(int64(i), dn.Dnum)
+	}
 	return dnum.Compare(dn.Dnum, ToDnum(other))
 }
 
